@@ -19,6 +19,10 @@
 #include <unordered_map>
 #include <unordered_set>
 #include <stdarg.h>
+#include <unistd.h>
+#include <errno.h>
+#include <ctype.h>
+#include <sys/wait.h>
 
 using namespace asmjit;
 
@@ -41,6 +45,15 @@ struct Stats {
   uint64_t resets_soft = 0, resets_hard = 0, reuse_observed = 0, static_arenas = 0, skip_events = 0;
   uint64_t stamp_bytes = 0, max_blocks = 0, max_live_blocks = 0, huge_rejected = 0;
   uint64_t sso_to_heap = 0, fmt_exact_fit = 0, nontrivial_scripts = 0;
+  // round 11: self-aliased arguments, moves, impossible sizes beyond vector/String, growth above kGrowThreshold, word types, prime table
+  uint64_t self_alias_string = 0, self_alias_string_grow = 0, self_alias_vector = 0, self_alias_bitset = 0, self_swaps = 0;
+  uint64_t child_probes = 0, child_probe_deaths = 0;
+  uint64_t moves_hash = 0, moves_hash_embedded = 0, moves_tree = 0, moves_list = 0;
+  uint64_t huge_arena = 0, huge_bitset = 0, huge_string = 0, malloc_refused = 0, malloc_refused_after_soft_reset = 0;
+  uint64_t big_vec_growths = 0, big_string_growths = 0, big_bitset_growths = 0, big_bytes_verified = 0;
+  uint64_t bitops_calls = 0, bitvec32_ops = 0, bitword_iter = 0;
+  uint64_t prime_indices = 0, calc_mod_checks = 0, natural_rehashes = 0;
+  uint64_t small_api_checks = 0;
   std::map<std::pair<const char*, const char*>, uint64_t> opcount;
   std::unordered_set<uint64_t> distinct_all, distinct_nt;
   std::vector<std::string> samples;
@@ -55,6 +68,13 @@ static std::map<std::string, uint64_t> g_viol_count;
 // ---------------------------------------------------------------------------------------------------------
 static bool g_armed = false;
 static uint64_t g_fired = 0;
+// --real-oom 1: the shard runs with an allocator that refuses every malloc above 1 MiB (ASAN_OPTIONS max_allocation_size_mb=1), so
+// the arena cannot grow past a few hundred KB and malloc really returns null inside Arena::_alloc_oneshot/_alloc_reusable on the
+// ordinary paths. A null / kOutOfMemory answer without an injected failure is then legitimate (and counted), everything else is
+// judged as usual: nothing may change on failure, the block list stays walkable, live blocks keep their contents.
+static bool g_real_oom = false;
+static uint64_t g_real_oom_failures = 0;
+static bool real_failure_ok() { if (g_real_oom) { g_real_oom_failures++; return true; } return false; }
 
 static bool fail_hook(size_t) {
   g_stats.arena_requests++;
@@ -196,8 +216,50 @@ static std::string S(const char* fmt, ...) {
 // result of an operation that reports through asmjit::Error, under (possible) fault injection
 static bool expect(const char* kind, const char* op, Error e, bool fired) {
   if (fired && e == Error::kOk) C->viol(S("%s:injected-failure-not-reported:%s", kind, op), S("%s.%s returned kOk although the arena request it made was refused", kind, op));
-  if (!fired && e != Error::kOk) C->viol(S("%s:unexpected-error:%s", kind, op), S("%s.%s failed with error %u without any injected failure", kind, op, (unsigned)e));
+  if (!fired && e != Error::kOk && !(e == Error::kOutOfMemory && real_failure_ok())) C->viol(S("%s:unexpected-error:%s", kind, op), S("%s.%s failed with error %u without any injected failure", kind, op, (unsigned)e));
   return e == Error::kOk;
+}
+
+// Runs `fn` in a forked copy of the process first, so that an operation that ends in a sanitizer abort costs one child and
+// not the rest of the shard. Returns "" when the child survived, otherwise the error class of what stopped it
+// ("heap-use-after-free", "memcpy-param-overlap", "ubsan", "signal-11", ...). The child's stderr is captured (not forwarded).
+static std::string probe_in_child(const std::function<void()>& fn, std::string* report = nullptr) {
+  fflush(stdout); fflush(stderr);
+  int pfd[2];
+  if (pipe(pfd) != 0) return "";
+  pid_t pid = fork();
+  if (pid < 0) { close(pfd[0]); close(pfd[1]); return ""; }
+  if (pid == 0) {
+    close(pfd[0]); dup2(pfd[1], 2); close(pfd[1]);
+    fn();
+    _exit(0);
+  }
+  close(pfd[1]);
+  std::string err; char buf[4096]; ssize_t n;
+  while ((n = read(pfd[0], buf, sizeof buf)) > 0) if (err.size() < (1u << 16)) err.append(buf, size_t(n));
+  close(pfd[0]);
+  int st = 0;
+  while (waitpid(pid, &st, 0) < 0 && errno == EINTR) {}
+  g_stats.child_probes++;
+  if (WIFEXITED(st) && WEXITSTATUS(st) == 0) return "";
+  g_stats.child_probe_deaths++;
+  std::string cls;
+  size_t at = err.find("ERROR: AddressSanitizer: ");
+  if (at != std::string::npos) {
+    at += strlen("ERROR: AddressSanitizer: ");
+    size_t e = at; while (e < err.size() && (isalnum((unsigned char)err[e]) || err[e] == '-' || err[e] == '_')) e++;
+    cls = err.substr(at, e - at);
+  }
+  else if (err.find("runtime error:") != std::string::npos) cls = "ubsan";
+  else if (WIFSIGNALED(st)) cls = S("signal-%d", WTERMSIG(st));
+  else cls = S("exit-%d", WIFEXITED(st) ? WEXITSTATUS(st) : -1);
+  if (report) {
+    // first report line + the innermost frames, for the violation text
+    std::string txt; size_t pos = at != std::string::npos ? err.rfind('\n', at) + 1 : 0; int lines = 0;
+    while (pos < err.size() && lines < 9) { size_t nl = err.find('\n', pos); if (nl == std::string::npos) nl = err.size(); std::string ln = err.substr(pos, nl - pos); if (lines == 0 || ln.find("    #") == 0) { txt += ln.substr(0, 200) + " / "; lines++; } pos = nl + 1; }
+    *report = txt;
+  }
+  return cls;
 }
 
 // ---------------------------------------------------------------------------------------------------------
@@ -342,6 +404,21 @@ struct VecH : Harness {
       if (size_t(V.end() - V.begin()) != M.size() || V.as_span().size() != M.size()) ok = false;
       if (!M.empty() && (!(V.first() == M.front()) || !(V.last() == M.back()))) ok = false;
       if (!ok) C->viol(S("vector:iteration-mismatch:%s", op), S("%s forward/reverse iteration, first()/last() or span disagree with the model after %s", K, op));
+      // element access, const iterators, span comparison (near miss included)
+      const ArenaVector<T>& CV = V;
+      bool acc = size_t(CV.cend() - CV.cbegin()) == M.size() && CV.cbegin() == CV.data() && CV.cdata() == V.data();
+      if (!M.empty()) { size_t k = C->r.below(M.size()); acc = acc && V[k] == M[k] && CV[k] == M[k] && CV.at(k) == M[k] && V.as_span()[k] == M[k] && V.as_span().first() == M.front() && V.as_span().last() == M.back(); }
+      Span<T> ms(M.data(), M.size());
+      bool eq = V.as_span().equals(ms) && (V.as_span() == ms) && !(V.as_span() != ms);
+      if (!M.empty()) {
+        size_t k = C->r.below(M.size()); T keep = M[k]; M[k] = VT<T>::make(C->r.next() | 1u); bool differs = !(M[k] == keep);
+        if (differs && (V.as_span().equals(ms) || (V.as_span() == ms) || !(V.as_span() != ms))) eq = false;
+        M[k] = keep;
+        if (V.as_span().equals(Span<T>(M.data(), M.size() - 1)) || V.as_span() == Span<T>(M.data(), M.size() - 1)) eq = false;
+      }
+      g_stats.small_api_checks++;
+      if (!acc) C->viol(S("vector:element-access-mismatch:%s", op), S("%s operator[]/at()/cbegin()/cend()/cdata() disagree with the model after %s", K, op));
+      if (!eq) C->viol("span:equals-wrong", S("Span::equals/==/!= on %s (size %zu) disagree with the model (equal copy, one-element near miss, shorter span)", K, M.size()));
     }
     C->sync(slot[t], V.data(), V.capacity() * sizeof(T), K, op);
   }
@@ -401,8 +478,10 @@ struct VecH : Harness {
     else if (c < 74) {
       int w = int(c - 68) / 2; op = w == 0 ? "reserve_fit" : w == 1 ? "reserve_grow" : "reserve_additional";
       size_t n = r.below(r.chance(1, 6) ? 3000 : 64);
+      bool one = w == 2 && r.chance(1, 3);
+      if (one) { op = "reserve_additional()"; n = 1; }
       C->log(family, K, op, n, M.size());
-      Error e; { Fault f(C->maybe_fault()); e = w == 0 ? V.reserve_fit(A, n) : w == 1 ? V.reserve_grow(A, n) : V.reserve_additional(A, n); fired = f.fired(); }
+      Error e; { Fault f(C->maybe_fault()); e = w == 0 ? V.reserve_fit(A, n) : w == 1 ? V.reserve_grow(A, n) : one ? V.reserve_additional(A) : V.reserve_additional(A, n); fired = f.fired(); }
       if (expect("vector", op, e, fired)) {
         size_t need = w == 2 ? M.size() + n : n;
         if (V.capacity() < need) C->viol(S("vector:reserve-ok-without-capacity:%s", op), S("%s %s(%zu) returned kOk but capacity is %zu (size %zu)", K, op, n, V.capacity(), V.size()));
@@ -422,15 +501,22 @@ struct VecH : Harness {
       else g_stats.huge_rejected++;
     }
     else if (c < 78) {
-      op = "swap"; C->log(family, K, op, m[0].size(), m[1].size());
-      v[0].swap(v[1]); m[0].swap(m[1]); std::swap(slot[0], slot[1]);
-      check(1 - t, op, false);
+      if (r.chance(1, 6)) { op = "swap(self)"; C->log(family, K, op, M.size()); V.swap(V); g_stats.self_swaps++; }
+      else {
+        op = "swap"; C->log(family, K, op, m[0].size(), m[1].size());
+        v[0].swap(v[1]); m[0].swap(m[1]); std::swap(slot[0], slot[1]);
+        check(1 - t, op, false);
+      }
     }
     else if (c < 81) {
-      op = "concat"; C->log(family, K, op, M.size(), m[1 - t].size());
-      if (M.size() + m[1 - t].size() > 3 * soft_cap + 64) return;
-      Error e; { Fault f(C->maybe_fault()); e = V.concat(A, v[1 - t]); fired = f.fired(); }
-      if (expect("vector", op, e, fired)) M.insert(M.end(), m[1 - t].begin(), m[1 - t].end());
+      // the source may be the vector itself (textbook: v.insert(v.end(), v.begin(), v.end()))
+      bool self = r.chance(1, 4);
+      const std::vector<T> src = self ? M : m[1 - t];
+      op = self ? "concat(self)" : "concat"; C->log(family, K, op, M.size(), src.size());
+      if (M.size() + src.size() > 3 * soft_cap + 64) return;
+      Error e; { Fault f(C->maybe_fault()); e = V.concat(A, self ? V : v[1 - t]); fired = f.fired(); }
+      if (expect("vector", op, e, fired)) M.insert(M.end(), src.begin(), src.end());
+      if (self) g_stats.self_alias_vector++;
       check(1 - t, op, false);
     }
     else if (c < 83) { op = "release"; C->log(family, K, op, M.size()); V.release(A); M.clear(); if (V.data() || V.capacity()) C->viol("vector:release-keeps-buffer", S("%s release() left data/capacity set", K)); }
@@ -453,10 +539,25 @@ struct VecH : Harness {
       else return;
     }
     else if (c < 90) {
-      op = "assign_unchecked"; if (V.capacity() < m[1 - t].size()) return;
-      C->log(family, K, op, M.size(), m[1 - t].size()); V.assign_unchecked(v[1 - t]); M = m[1 - t];
+      if (r.chance(1, 4)) { op = "assign_unchecked(self)"; C->log(family, K, op, M.size()); V.assign_unchecked(V); g_stats.self_alias_vector++; }
+      else {
+        op = "assign_unchecked"; if (V.capacity() < m[1 - t].size()) return;
+        C->log(family, K, op, M.size(), m[1 - t].size()); V.assign_unchecked(v[1 - t]); M = m[1 - t];
+      }
     }
     else if (c < 93) {
+      if (r.chance(1, 4)) {
+        // concat_unchecked: the other vector, or the vector itself when it fits twice
+        bool self = r.chance(1, 3);
+        const std::vector<T> src = self ? M : m[1 - t];
+        if (V.capacity() - V.size() < src.size()) return;
+        op = self ? "concat_unchecked(self)" : "concat_unchecked"; C->log(family, K, op, M.size(), src.size());
+        V.concat_unchecked(self ? V : v[1 - t]); M.insert(M.end(), src.begin(), src.end());
+        if (self) g_stats.self_alias_vector++;
+        g_stats.small_api_checks++;
+        check(t, op, (C->nops & 7) == 0);
+        return;
+      }
       if (V.size() >= V.capacity()) return;
       uint64_t w = r.below(3); T x = val(); size_t i = r.below(M.size() + 1);
       op = w == 0 ? "append_unchecked" : w == 1 ? "prepend_unchecked" : "insert_unchecked"; C->log(family, K, op, i, M.size());
@@ -490,6 +591,12 @@ struct HKey {
   uint32_t h, key;
   uint32_t hash_code() const { return h; }
   bool matches(const HNode* n) const { return n->key == key; }
+};
+
+// ArenaHash<NodeT>(ArenaHash&&) delegates to the deleted copy constructor (it cannot be instantiated), so the move path that
+// exists is the base-class one: ArenaHashBase(ArenaHashBase&&) with its embedded-bucket fix-up.
+struct HMove : public ArenaHashBase {
+  explicit HMove(ArenaHashBase&& o) noexcept : ArenaHashBase(std::move(o)) {}
 };
 
 struct HashH : Harness {
@@ -558,6 +665,33 @@ struct HashH : Harness {
     return *all[t].begin();
   }
 
+  // move construction into a temporary that lives elsewhere, the source is destroyed (scribbled), the content comes back by swap
+  void move(int t) {
+    const char* op = "move"; ArenaHash<HNode>& T = tab[t];
+    C->log(family, K, op, all[t].size(), T._data == T._embedded);
+    g_stats.moves_hash++; if (T._data == T._embedded) g_stats.moves_hash_embedded++;
+    {
+      alignas(ArenaHashBase) unsigned char raw[sizeof(ArenaHash<HNode>)];
+      ArenaHash<HNode>* src = new (raw) ArenaHash<HNode>();
+      src->swap(T);                                   // src now owns the content; T is empty
+      HMove tmp(std::move(*static_cast<ArenaHashBase*>(src)));
+      memset(raw, 0xDD, sizeof raw);                  // the moved-from object is gone: nothing may still point into it
+      // walk the moved-to table in place before it goes back
+      size_t total = 0;
+      if (tmp._size != all[t].size()) C->viol("hash:size-mismatch:move", S("moved-to table has size %zu, model holds %zu nodes", tmp._size, all[t].size()));
+      for (uint32_t i = 0; i < tmp._buckets_count && total <= all[t].size(); i++) {
+        if (uintptr_t(tmp._data) - uintptr_t(raw) < sizeof raw) { C->viol("hash:moved-table-points-into-source", S("after move construction _data still points into the source object (its embedded bucket); size %zu, buckets %u", all[t].size(), tmp._buckets_count)); C->abort = true; break; }
+        for (ArenaHashNode* n = tmp._data[i]; n && total <= all[t].size(); n = n->_hash_next) {
+          total++;
+          if (!all[t].count(static_cast<HNode*>(n))) { C->viol("hash:foreign-node-in-bucket:move", "moved-to table links a node that is not in the model"); C->abort = true; break; }
+        }
+      }
+      if (C->abort) return;
+      T._swap(tmp);                                   // T was empty (embedded): exercises the fix-up of swap as well
+    }
+    walk(t, op);
+  }
+
   void step() override {
     Arena& A = *C->arena; Rng& r = C->r;
     int t = (int)r.below(2);
@@ -573,13 +707,16 @@ struct HashH : Harness {
       if (!spare.empty() && r.chance(1, 3)) { n = spare.back(); spare.pop_back(); n->key = k; n->_hash_code = hash_of(k); }
       else {
         bool fired; { Fault f(C->maybe_fault()); n = A.new_oneshot<HNode>(hash_of(k), k, C->next_id++); fired = f.fired(); }
-        if (!n) { if (!fired) C->viol("arena:new_oneshot-null", "new_oneshot<HNode>() returned null without an injected failure"); return; }
+        if (!n) { if (!fired && !real_failure_ok()) C->viol("arena:new_oneshot-null", "new_oneshot<HNode>() returned null without an injected failure"); return; }
         if (fired) C->viol("arena:injected-failure-not-reported:new_oneshot", "new_oneshot returned an object although the request was refused");
         if (!C->add_block(n, Arena::aligned_size_of<HNode>(), "hash-node", "new_oneshot")) return;
       }
+      uint32_t buckets0 = T._buckets_count;
       HNode* ret; { Fault f(C->maybe_fault()); ret = T.insert(A, n); (void)f.fired(); }   // a refused rehash is tolerated by design: the table only degrades
       if (ret != n) C->viol("hash:insert-returns-other-node", "insert() did not return the inserted node");
+      if (T._buckets_count != buckets0) g_stats.natural_rehashes++;   // coverage only: growth is a performance matter, not an ADT one
       m[t][k].push_back(n); all[t].insert(n);
+      if (all[t].size() <= 2 && r.chance(1, 3)) { check(t, op, false); if (!C->abort) move(t); return; }
     }
     else if (c < 60) {
       op = "get"; uint32_t k = uint32_t(r.below(domain)); C->log(family, K, op, k);
@@ -613,12 +750,14 @@ struct HashH : Harness {
       check(t, op, true);
       return;
     }
-    else if (c < 97) {
+    else if (c < 95) {
+      if (r.chance(1, 6)) { op = "swap(self)"; C->log(family, K, op, all[t].size()); T.swap(T); g_stats.self_swaps++; check(t, op, true); return; }
       op = "swap"; C->log(family, K, op, all[0].size(), all[1].size());
       tab[0].swap(tab[1]); m[0].swap(m[1]); all[0].swap(all[1]); std::swap(slot[0], slot[1]);
       check(1 - t, op, true); check(t, op, true);
       return;
     }
+    else if (c < 97) { move(t); return; }
     else {
       op = "release"; C->log(family, K, op, all[t].size());
       for (HNode* n : all[t]) spare.push_back(n);
@@ -716,7 +855,7 @@ struct TreeH : Harness {
       if (present) return;
       size_t had = pooled; bool fired; TNode* n;
       { Fault f(C->maybe_fault()); n = pool.alloc(A); fired = f.fired(); }
-      if (!n) { if (!fired) C->viol("pool:alloc-null", "ArenaPool::alloc returned null without an injected failure"); return; }
+      if (!n) { if (!fired && !real_failure_ok()) C->viol("pool:alloc-null", "ArenaPool::alloc returned null without an injected failure"); return; }
       if (had) pooled--; else if (!C->add_block(n, Arena::aligned_size(sizeof(TNode)), "tree-node", "pool.alloc")) return;
       n = new (n) TNode();
       n->key = k; n->serial = C->next_id++;
@@ -746,9 +885,20 @@ struct TreeH : Harness {
       if (g != (it == M.end() ? nullptr : it->second)) C->viol("tree:get-disagrees-with-model", S("get(%u) returned %s, model says the key is %s", k, g ? "a node" : "null", it == M.end() ? "absent" : "present"));
       return;
     }
+    else if (c < 96) {
+      if (r.chance(1, 5)) { op = "swap(self)"; C->log(family, K, op, M.size()); T.swap(T); g_stats.self_swaps++; }
+      else { op = "swap"; C->log(family, K, op, m[0].size(), m[1].size()); tree[0].swap(tree[1]); m[0].swap(m[1]); walk(1 - t, op); }
+    }
     else if (c < 97) {
-      op = "swap"; C->log(family, K, op, m[0].size(), m[1].size());
-      tree[0].swap(tree[1]); m[0].swap(m[1]); walk(1 - t, op);
+      // move construction; the source object is destroyed (scribbled) before the content comes back by swap
+      op = "move"; C->log(family, K, op, M.size()); g_stats.moves_tree++;
+      alignas(ArenaTree<TNode>) unsigned char raw[sizeof(ArenaTree<TNode>)];
+      ArenaTree<TNode>* src = new (raw) ArenaTree<TNode>();
+      src->swap(T);
+      ArenaTree<TNode> tmp(std::move(*src));
+      memset(raw, 0xDD, sizeof raw);
+      if (!T.is_empty()) C->viol("tree:swap-leaves-content", "swap() with an empty tree left nodes behind");
+      T.swap(tmp);
     }
     else {
       op = "drain"; size_t n = std::min<size_t>(M.size(), 1 + r.below(30)); C->log(family, K, op, n, M.size());
@@ -806,7 +956,7 @@ struct ListH : Harness {
   LNode* fresh() {
     if (!spare.empty() && C->r.chance(2, 3)) { LNode* n = spare.back(); spare.pop_back(); return n; }
     bool fired; LNode* n; { Fault f(C->maybe_fault()); n = C->arena->new_oneshot<LNode>(); fired = f.fired(); }
-    if (!n) { if (!fired) C->viol("arena:new_oneshot-null", "new_oneshot<LNode>() returned null without an injected failure"); return nullptr; }
+    if (!n) { if (!fired && !real_failure_ok()) C->viol("arena:new_oneshot-null", "new_oneshot<LNode>() returned null without an injected failure"); return nullptr; }
     if (!C->add_block(n, Arena::aligned_size_of<LNode>(), "list-node", "new_oneshot")) return nullptr;
     n->serial = C->next_id++;
     return n;
@@ -839,7 +989,24 @@ struct ListH : Harness {
       else { op = "pop_first"; C->log(family, K, op, M.size()); n = L.pop_first(); if (n != M.front()) C->viol("list:pop_first-wrong-node", "pop_first() did not return the first node"); n = M.front(); M.erase(M.begin()); }
       spare.push_back(n);
     }
-    else { op = "swap"; C->log(family, K, op, m[0].size(), m[1].size()); l[0].swap(l[1]); m[0].swap(m[1]); walk(1 - t, op); }
+    else if (c < 94) { op = "swap"; C->log(family, K, op, m[0].size(), m[1].size()); l[0].swap(l[1]); m[0].swap(m[1]); walk(1 - t, op); }
+    else if (c < 96) { op = "swap(self)"; C->log(family, K, op, M.size()); L.swap(L); g_stats.self_swaps++; }
+    else {
+      // move construction of the list header (source scribbled afterwards) and of a node (link fields must be carried over)
+      op = "move"; C->log(family, K, op, M.size()); g_stats.moves_list++;
+      alignas(ArenaList<LNode>) unsigned char raw[sizeof(ArenaList<LNode>)];
+      ArenaList<LNode>* src = new (raw) ArenaList<LNode>();
+      src->swap(L);
+      ArenaList<LNode> tmp(std::move(*src));
+      memset(raw, 0xDD, sizeof raw);
+      if (!L.is_empty()) C->viol("list:swap-leaves-content", "swap() with an empty list left nodes behind");
+      L.swap(tmp);
+      if (!M.empty()) {
+        LNode* n = M[r.below(M.size())];
+        ArenaListNode<LNode> copy(std::move(*static_cast<ArenaListNode<LNode>*>(n)));
+        if (copy.prev() != n->prev() || copy.next() != n->next()) C->viol("list:node-move-loses-links", "ArenaListNode move constructor did not carry prev/next over");
+      }
+    }
     if (!C->abort) walk(t, op);
   }
 };
@@ -961,19 +1128,41 @@ struct BitSetH : Harness {
     else if (c < 71) { op = "clear"; C->log(family, K, op, M.size()); B.clear(); M.clear(); }
     else if (c < 83) {
       uint64_t w = r.below(3);
-      op = w == 0 ? "and_" : w == 1 ? "and_not" : "or_"; C->log(family, K, op, M.size(), MO.size());
-      if (w == 0) B.and_(O); else if (w == 1) B.and_not(O); else B.or_(O);
+      bool self = r.chance(1, 5);   // x &= x, x &= ~x, x |= x
+      static const char* names[] = { "and_", "and_not", "or_", "and_(self)", "and_not(self)", "or_(self)" };
+      op = names[w + (self ? 3 : 0)]; C->log(family, K, op, M.size(), self ? M.size() : MO.size());
+      const std::vector<bool> src = self ? M : MO;
+      ArenaBitSet& S2 = self ? B : O;
+      if (w == 0) B.and_(S2); else if (w == 1) B.and_not(S2); else B.or_(S2);
       for (size_t i = 0; i < M.size(); i++) {
-        bool o = i < MO.size() ? bool(MO[i]) : false;
+        bool o = i < src.size() ? bool(src[i]) : false;
         M[i] = w == 0 ? (M[i] && o) : w == 1 ? (M[i] && !o) : (M[i] || o);
       }
+      if (self) g_stats.self_alias_bitset++;
     }
     else if (c < 89) {
-      op = "copy_from"; C->log(family, K, op, M.size(), MO.size());
-      Error e; { Fault f(C->maybe_fault()); e = B.copy_from(A, O); fired = f.fired(); }
-      if (expect(K, op, e, fired)) M = MO;
+      bool self = r.chance(1, 5);
+      op = self ? "copy_from(self)" : "copy_from"; C->log(family, K, op, M.size(), self ? M.size() : MO.size());
+      Error e; { Fault f(C->maybe_fault()); e = B.copy_from(A, self ? B : O); fired = f.fired(); }
+      if (expect(K, op, e, fired) && !self) M = MO;
+      if (self) { g_stats.self_alias_bitset++; if (!B.equals(B) || !(B == B) || (B != B)) C->viol("bitset:equals-wrong:self", "a bit set does not compare equal to itself"); }
     }
-    else if (c < 95) { op = "swap"; C->log(family, K, op, m[0].size(), m[1].size()); bs[0].swap(bs[1]); m[0].swap(m[1]); std::swap(slot[0], slot[1]); check(1 - t, op, false); }
+    else if (c < 94) {
+      if (r.chance(1, 6)) { op = "swap(self)"; C->log(family, K, op, M.size()); B.swap(B); g_stats.self_swaps++; }
+      else { op = "swap"; C->log(family, K, op, m[0].size(), m[1].size()); bs[0].swap(bs[1]); m[0].swap(m[1]); std::swap(slot[0], slot[1]); check(1 - t, op, false); }
+    }
+    else if (c < 95) {
+      // sizes no bit set can have: must be refused by the overflow guard or by the allocator saying no; nothing may change.
+      // (2^32 <= n < 2^44 is not attempted: the 32-bit size field has no guard of its own and the memory would be real)
+      uint64_t w = r.below(4);
+      size_t n = w == 0 ? SIZE_MAX - r.below(63) : w == 1 ? (size_t(1) << 63) + r.below(4096) : w == 2 ? (size_t(1) << (44 + r.below(19))) + r.below(4096) : M.size() + 1 + B.capacity() + r.below(200);
+      op = w == 0 ? "resize(huge:wraps)" : w == 1 ? "resize(huge:2^63)" : w == 2 ? "resize(huge:allocator-refuses)" : "_resize(ideal=huge)";
+      C->log(family, K, op, n, M.size());
+      Error e; { Fault f(false); e = w == 3 ? B._resize(A, n, SIZE_MAX - r.below(63), r.chance(1, 2)) : B.resize(A, n, r.chance(1, 2)); }
+      if (e == Error::kOk) { C->viol(S("bitset:impossible-request-accepted:%s", op), S("%s with n=%zu returned kOk (size %zu -> %zu, capacity %zu)", op, n, M.size(), B.size(), B.capacity())); C->abort = true; return; }
+      g_stats.huge_bitset++; g_stats.huge_rejected++;
+      if (w == 1 || w == 2) g_stats.malloc_refused++;
+    }
     else if (c < 97) { op = "release"; C->log(family, K, op, M.size()); B.release(A); M.clear(); }
     else {
       op = "move"; C->log(family, K, op, M.size());
@@ -986,27 +1175,30 @@ struct BitSetH : Harness {
 // ---------------------------------------------------------------------------------------------------------
 // Support::bit_vector_* primitives on arena memory (guard words on both sides)
 // ---------------------------------------------------------------------------------------------------------
-struct BitVecH : Harness {
-  static constexpr BitWord kGuard = BitWord(0xA5C3F00DDEADBEEFull);
-  BitWord* raw[2] {}; size_t W = 0; size_t alloc_bytes[2] {};
+template<typename T>
+struct BitVecHT : Harness {
+  static constexpr size_t BW = Support::bit_size_of<T>;
+  static constexpr T kGuard = T(0xA5C3F00DDEADBEEFull);
+  T* raw[2] {}; size_t W = 0; size_t alloc_bytes[2] {};
   std::vector<bool> m[2];
-  const char* K = "bitvec";
+  const char* K = sizeof(T) == 8 ? "bitvec" : "bitvec32";
 
-  BitVecH() { family = F_BITVEC; }
-  BitWord* buf(int t) { return raw[t] + 1; }
+  BitVecHT() { family = F_BITVEC; }
+  T* buf(int t) { return raw[t] + 1; }
+  void count() { if (sizeof(T) != sizeof(BitWord)) g_stats.bitvec32_ops++; }
 
   bool ensure() {
-    if (raw[0]) return true;
+    if (raw[0] && raw[1]) return true;
     static const size_t ws[] = { 1, 2, 3, 4, 5, 8, 17, 40 };
     W = ws[C->r.below(8)];
     for (int t = 0; t < 2; t++) {
-      size_t got = 0; BitWord* p;
-      { Fault f(false); p = C->arena->alloc_reusable_zeroed<BitWord>((W + 2) * sizeof(BitWord), Out(got)); }
-      if (!p) { C->viol("arena:alloc_reusable-null", "alloc_reusable_zeroed returned null without an injected failure"); return false; }
-      if (!C->add_block(p, got, "bitvec-words", "alloc_reusable_zeroed")) return false;
+      size_t got = 0; T* p;
+      { Fault f(false); p = C->arena->alloc_reusable_zeroed<T>((W + 2) * sizeof(T), Out(got)); }
+      if (!p) { if (!real_failure_ok()) C->viol("arena:alloc_reusable-null", "alloc_reusable_zeroed returned null without an injected failure"); free_all(); return false; }
+      if (!C->add_block(p, got, "bitvec-words", "alloc_reusable_zeroed")) { C->arena->free_reusable(p, got); free_all(); return false; }
       raw[t] = p; alloc_bytes[t] = got;
       p[0] = kGuard; p[W + 1] = kGuard;
-      m[t].assign(W * 64, false);
+      m[t].assign(W * BW, false);
     }
     return true;
   }
@@ -1016,12 +1208,12 @@ struct BitVecH : Harness {
   void check(int t, const char* op) {
     g_stats.compares++;
     if (!raw[t]) return;
-    if (raw[t][0] != kGuard || raw[t][W + 1] != kGuard) { C->viol(S("bitvec:guard-word-overwritten:%s", op), S("%s wrote outside the %zu-word bit vector (guard %s)", op, W, raw[t][0] != kGuard ? "below" : "above")); raw[t][0] = kGuard; raw[t][W + 1] = kGuard; }
-    for (size_t i = 0; i < W * 64; i++) {
+    if (raw[t][0] != kGuard || raw[t][W + 1] != kGuard) { C->viol(S("bitvec:guard-word-overwritten:%s", op), S("%s wrote outside the %zu-word bit vector of %zu-bit words (guard %s)", op, W, BW, raw[t][0] != kGuard ? "below" : "above")); raw[t][0] = kGuard; raw[t][W + 1] = kGuard; }
+    for (size_t i = 0; i < W * BW; i++) {
       bool g = Support::bit_vector_get_bit(buf(t), i);
       if (g != M(t, i)) {
-        C->viol(S("bitvec:bit-mismatch:%s", op), S("bit %zu of a %zu-word vector is %d, model says %d after %s", i, W, (int)g, (int)M(t, i), op));
-        for (size_t j = 0; j < W * 64; j++) m[t][j] = Support::bit_vector_get_bit(buf(t), j);
+        C->viol(S("bitvec:bit-mismatch:%s", op), S("bit %zu of a vector of %zu %zu-bit words is %d, model says %d after %s", i, W, BW, (int)g, (int)M(t, i), op));
+        for (size_t j = 0; j < W * BW; j++) m[t][j] = Support::bit_vector_get_bit(buf(t), j);
         break;
       }
     }
@@ -1034,43 +1226,75 @@ struct BitVecH : Harness {
   size_t edge(size_t lim) {
     Rng& r = C->r;
     if (r.chance(1, 3)) return r.below(lim + 1);
-    size_t w = r.below(lim / 64 + 1) * 64; int d = int(r.below(3)) - 1;
+    size_t w = r.below(lim / BW + 1) * BW; int d = int(r.below(3)) - 1;
     size_t v = (d < 0 && w == 0) ? 0 : w + d;
     return std::min(v, lim);
   }
 
   template<typename Op> void op_iter(const char* name, size_t start, std::function<bool(bool, bool)> fn) {
-    Support::BitVectorOpIterator<BitWord, Op> it(buf(0), buf(1), W, start);
+    bool spans = C->r.chance(1, 2);
+    Support::BitVectorOpIterator<T, Op> it = spans ? Support::BitVectorOpIterator<T, Op>(Span<const T>(buf(0), W), Span<const T>(buf(1), W), start)
+                                                   : Support::BitVectorOpIterator<T, Op>(buf(0), buf(1), W, start);
     size_t i = start; bool ok = true;
     while (it.has_next()) {
       size_t idx = it.next();
-      while (i < W * 64 && !fn(m[0][i], m[1][i])) i++;
-      if (i >= W * 64 || idx != i) { ok = false; break; }
+      while (i < W * BW && !fn(m[0][i], m[1][i])) i++;
+      if (i >= W * BW || idx != i) { ok = false; break; }
       i++;
     }
-    if (ok) { while (i < W * 64 && !fn(m[0][i], m[1][i])) i++; if (i < W * 64) ok = false; }
-    if (!ok) C->viol(S("bitvec:op-iterator-mismatch:%s", name), S("BitVectorOpIterator<%s> from %zu over %zu words disagrees with the model", name, start, W));
+    if (ok) { while (i < W * BW && !fn(m[0][i], m[1][i])) i++; if (i < W * BW) ok = false; }
+    if (!ok) C->viol(S("bitvec:op-iterator-mismatch:%s", name), S("BitVectorOpIterator<%s> from %zu over %zu %zu-bit words disagrees with the model", name, start, W, BW));
   }
 
   void step() override {
     Rng& r = C->r;
     if (!ensure()) return;
     int t = (int)r.below(2);
-    size_t N = W * 64;
+    size_t N = W * BW;
     uint64_t c = r.below(100);
     const char* op;
-    if (c < 40) {
+    count();
+    if (c < 30) {
       size_t a = edge(N), b = edge(N); if (a > b) std::swap(a, b);
       bool fill = r.chance(1, 2); op = fill ? "bit_vector_fill" : "bit_vector_clear";
       C->log(family, K, op, a, b - a);
       if (fill) Support::bit_vector_fill(buf(t), a, b - a); else Support::bit_vector_clear(buf(t), a, b - a);
       for (size_t i = a; i < b; i++) m[t][i] = fill;
     }
-    else if (c < 60) {
+    else if (c < 45) {
       size_t i = std::min(N - 1, edge(N)); bool v = r.chance(1, 2); uint64_t w = r.below(3);
       if (w == 0) { op = "bit_vector_set_bit"; C->log(family, K, op, i, v); Support::bit_vector_set_bit(buf(t), i, v); m[t][i] = v; }
       else if (w == 1) { op = "bit_vector_or_bit"; C->log(family, K, op, i, v); Support::bit_vector_or_bit(buf(t), i, v); m[t][i] = m[t][i] | v; }
       else { op = "bit_vector_xor_bit"; C->log(family, K, op, i, v); Support::bit_vector_xor_bit(buf(t), i, v); m[t][i] = m[t][i] ^ v; }
+    }
+    else if (c < 52) {
+      // BitOps::* helpers over Span<T> (what the register allocator's liveness sets use). BitOps::set_bit/clear_bit/or_bit/xor_bit
+      // cannot be instantiated (they bind T& to an element of a const Span&), so only the ones that compile are driven.
+      size_t i = std::min(N - 1, edge(N));
+      Span<T> sp(buf(t), W);
+      g_stats.bitops_calls++;
+      {
+        op = "BitOps::bit_at"; C->log(family, K, op, i);
+        g_stats.compares++;
+        if (BitOps::bit_at(sp, i) != m[t][i] || BitOps::bit_at(Span<const T>(buf(t), W), uint32_t(i)) != m[t][i]) C->viol("bitvec:BitOps::bit_at-wrong", S("BitOps::bit_at(%zu) on %zu-bit words disagrees with the model", i, BW));
+        size_t nb = r.chance(1, 2) ? edge(N) : r.below(100000);
+        if (BitOps::size_in_words<T>(nb) != (nb / BW) + (nb % BW ? 1 : 0) || BitOps::size_in_bits(sp) != N)
+          C->viol("bitvec:BitOps::size-wrong", S("BitOps::size_in_words<%zu-bit>(%zu)=%zu / size_in_bits(span of %zu words)=%zu", BW, nb, BitOps::size_in_words<T>(nb), W, BitOps::size_in_bits(sp)));
+        return;
+      }
+    }
+    else if (c < 64) {
+      // whole-span combination: dst = a OP b, where dst may be one of the sources
+      uint64_t w = r.below(4);
+      static const char* names[] = { "BitOps::or_", "BitOps::combine_spans<And>", "BitOps::combine_spans<Xor>", "BitOps::combine_spans<AndNot>" };
+      op = names[w]; C->log(family, K, op, t, W);
+      g_stats.bitops_calls++;
+      Span<T> dst(buf(t), W); Span<const T> a(buf(0), W), b(buf(1), W);
+      if (w == 0) BitOps::or_(dst, a, b);
+      else if (w == 1) BitOps::combine_spans<Support::And>(dst, a, b);
+      else if (w == 2) BitOps::combine_spans<Support::Xor>(dst, a, b);
+      else BitOps::combine_spans<Support::AndNot>(dst, a, b);
+      for (size_t i = 0; i < N; i++) { bool x = m[0][i], y = m[1][i]; m[t][i] = w == 0 ? (x || y) : w == 1 ? (x && y) : w == 2 ? (x != y) : (x && !y); }
     }
     else if (c < 75) {
       op = "bit_vector_index_of"; size_t start = std::min(N - 1, edge(N)); bool v = r.chance(1, 2);
@@ -1079,13 +1303,13 @@ struct BitVecH : Harness {
       C->log(family, K, op, start, v);
       size_t got = Support::bit_vector_index_of(buf(t), start, v);
       g_stats.compares++;
-      if (got != want) C->viol("bitvec:index_of-wrong", S("bit_vector_index_of(start=%zu, value=%d) returned %zu, the model's first match is %zu", start, (int)v, got, want));
+      if (got != want) C->viol("bitvec:index_of-wrong", S("bit_vector_index_of(start=%zu, value=%d) on %zu-bit words returned %zu, the model's first match is %zu", start, (int)v, BW, got, want));
       return;
     }
-    else if (c < 88) {
+    else if (c < 85) {
       op = "BitVectorIterator"; size_t start = edge(N);
       C->log(family, K, op, start);
-      Support::BitVectorIterator<BitWord> it(Span<const BitWord>(buf(t), W), start);
+      Support::BitVectorIterator<T> it(Span<const T>(buf(t), W), start);
       size_t i = start; bool ok = true; g_stats.compares++;
       while (it.has_next()) {
         if (it.peek_next() >= N) { ok = false; break; }
@@ -1095,7 +1319,24 @@ struct BitVecH : Harness {
         i++;
       }
       if (ok) { while (i < N && !m[t][i]) i++; if (i < N) ok = false; }
-      if (!ok) C->viol("bitvec:iterator-mismatch", S("BitVectorIterator from %zu over %zu words disagrees with the model", start, W));
+      if (!ok) C->viol("bitvec:iterator-mismatch", S("BitVectorIterator from %zu over %zu %zu-bit words disagrees with the model", start, W, BW));
+      return;
+    }
+    else if (c < 88) {
+      // BitWordIterator over one word
+      op = "BitWordIterator"; size_t k = r.below(W);
+      C->log(family, K, op, k);
+      g_stats.bitword_iter++; g_stats.compares++;
+      Support::BitWordIterator<T> it(buf(t)[k]);
+      size_t i = 0; bool ok = true;
+      while (it.has_next()) {
+        uint32_t idx = it.next();
+        while (i < BW && !m[t][k * BW + i]) i++;
+        if (i >= BW || idx != i) { ok = false; break; }
+        i++;
+      }
+      if (ok) { while (i < BW && !m[t][k * BW + i]) i++; if (i < BW) ok = false; }
+      if (!ok) C->viol("bitvec:word-iterator-mismatch", S("BitWordIterator over a %zu-bit word disagrees with the model", BW));
       return;
     }
     else if (c < 96) {
@@ -1109,6 +1350,7 @@ struct BitVecH : Harness {
     }
     else { op = "realloc"; C->log(family, K, op, W); check_all(op); free_all(); ensure(); return; }
     check(t, op);
+    if (op[0] == 'B' && op[3] == 'O') check(1 - t, op);   // span helpers must leave the other vector alone
   }
 };
 
@@ -1145,7 +1387,7 @@ struct PoolHT : Harness {
     if (c < 55 || live.empty()) {
       C->log(family, K, "alloc", live.size(), pooled.size());
       bool fired; PObj* p; { Fault f(C->maybe_fault()); p = pool.alloc(*C->arena); fired = f.fired(); }
-      if (!p) { if (!fired || !pooled.empty()) C->viol("pool:alloc-null", "ArenaPool::alloc returned null although no failure was injected / released objects were available"); return; }
+      if (!p) { if (!pooled.empty() || (!fired && !real_failure_ok())) C->viol("pool:alloc-null", "ArenaPool::alloc returned null although no failure was injected / released objects were available"); return; }
       if (!pooled.empty()) {
         if (!pooled.count(p)) { C->viol("pool:alloc-ignores-released", "alloc() returned memory that is not one of the released objects although some were pooled"); if (!C->add_block(p, Arena::aligned_size(Size), "pool-object", "pool.alloc")) return; }
         else pooled.erase(p);
@@ -1260,6 +1502,8 @@ struct StrH : Harness {
   bool zero_assign = false, exact_fit = false;
   static std::string opclass(const char* op) {
     std::string o = op;
+    size_t self = o.find("(self");
+    if (self != std::string::npos) { o[self] = '-'; o.erase(std::remove(o.begin(), o.end(), ')'), o.end()); return o; }   // "append(self)" -> "append-self"
     size_t par = o.find('('); if (par != std::string::npos) o.resize(par);
     if (o.rfind("assign_", 0) == 0 || o.rfind("append_", 0) == 0) o = o.substr(7);
     return o;
@@ -1288,6 +1532,9 @@ struct StrH : Harness {
     }
     else if (d[X.size()] != '\0') { C->viol(S("string:%s:not-null-terminated", oc.c_str()), S("data()[size()] is 0x%02x at size %zu after %s (capacity %zu, %s)", (unsigned char)d[X.size()], X.size(), op, X.capacity(), st)); bad = true; }
     if (X.is_empty() != (X.size() == 0)) C->viol("string:is_empty-wrong", "is_empty() disagrees with size()");
+    { const String& CX = X;
+      if (X.begin() != d || size_t(X.end() - X.begin()) != X.size() || CX.begin() != d || CX.end() != d + X.size() || X.as_span().data() != d || X.as_span().size() != X.size() || CX.as_span().data() != d || CX.as_span().size() != X.size())
+        C->viol("string:begin-end-span-wrong", S("begin()/end()/as_span() disagree with data()/size() after %s", op)); }
     if (bad) { X.data()[X.size()] = '\0'; M.assign(X.data(), X.size()); }
     zero_assign = exact_fit = false;
   }
@@ -1319,7 +1566,8 @@ struct StrH : Harness {
     };
     if (c < 14) {
       size_t n = piece_len(); std::string txt = rand_text(r, n, true);
-      if (app) { op = "append(data,size)"; C->log(family, K, op, n, M.size()); if (ok(op, X.append(txt.data(), n))) M.append(txt); }
+      if (app && r.chance(1, 3)) { op = "append(span)"; C->log(family, K, op, n, M.size()); g_stats.small_api_checks++; if (ok(op, X.append(Span<const char>(txt.data(), n)))) M.append(txt); }
+      else if (app) { op = "append(data,size)"; C->log(family, K, op, n, M.size()); if (ok(op, X.append(txt.data(), n))) M.append(txt); }
       else if (r.chance(1, 2)) { op = "assign(data,size)"; C->log(family, K, op, n, M.size()); if (ok(op, X.assign(txt.data(), n))) M = txt; }
       else { op = "assign(span)"; zero_assign = n == 0; C->log(family, K, op, n, M.size()); if (ok(op, X.assign(Span<const char>(txt.data(), n)))) M = txt; }
     }
@@ -1378,6 +1626,25 @@ struct StrH : Harness {
       else if (w < 6) out = 1020 + r.below(10);
       else if (w < 9) out = r.below(200);
       else out = r.below(5000);
+      if (r.chance(1, 16)) {
+        // a conversion that fails inside vsnprintf (wide character without a multibyte form in the "C" locale): must come back as an
+        // error; an append keeps what was there, an assign may leave the old content or nothing; the string stays terminated
+        static const wchar_t wbad[] = { wchar_t('o'), wchar_t('k'), wchar_t(0x20AC), 0 };
+        std::string pre = rand_text(r, r.chance(1, 2) ? r.below(40) : out % 1500, false); for (char& ch : pre) if (ch == '%') ch = '_';
+        std::string fmt = pre + "%ls";
+        op = app ? "append_format(%ls:invalid)" : "assign_format(%ls:invalid)"; C->log(family, K, op, pre.size(), rem);
+        Error e = app ? X.append_format(fmt.c_str(), wbad) : X.assign_format(fmt.c_str(), wbad);
+        g_stats.small_api_checks++;
+        if (e == Error::kOk) C->viol("string:format:conversion-failure-not-reported", S("%s returned kOk although vsnprintf cannot convert the argument", op));
+        bool wellformed = X.size() <= X.capacity() && X.data()[X.size()] == '\0';
+        bool kept = X.size() == M.size() && memcmp(X.data(), M.data(), M.size()) == 0;
+        if (!wellformed) { C->viol("string:format:not-null-terminated", S("after a failed %s the string is not terminated at size %zu (capacity %zu)", op, X.size(), X.capacity())); C->abort = true; return; }
+        if (e != Error::kOk && app && !kept) C->viol("string:format:failed-append-changes-content", S("a failed %s changed the string (size %zu -> %zu)", op, M.size(), X.size()));
+        if (e != Error::kOk && !app && !kept && X.size() != 0) C->viol("string:format:failed-assign-leaves-partial-content", S("a failed %s left %zu bytes that are neither the old content nor nothing", op, X.size()));
+        M.assign(X.data(), X.size());
+        check(t, op);
+        return;
+      }
       uint64_t shape = r.below(4);
       char tmp[64];
       std::string want; Error e;
@@ -1427,6 +1694,7 @@ struct StrH : Harness {
     else if (c < 87) { op = "clear"; C->log(family, K, op, M.size()); X.clear(); M.clear(); }
     else if (c < 88) { op = "reset"; C->log(family, K, op, M.size()); X.reset(); M.clear(); }
     else if (c < 90) {
+      if (r.chance(1, 5)) { op = "swap(self)"; C->log(family, K, op, M.size()); X.swap(X); g_stats.self_swaps++; check(t, op); return; }
       op = "swap"; C->log(family, K, op, m[0].size(), m[1].size());
       s0.swap(s1); m[0].swap(m[1]); check(0, op); check(1, op); return;
     }
@@ -1437,9 +1705,29 @@ struct StrH : Harness {
       X = std::move(tmp);
     }
     else if (c < 94) {
-      int o = (int)r.below(4); if (o == t) return;
-      if (app) { op = "append(String)"; C->log(family, K, op, M.size(), m[o].size()); if (ok(op, X.append(*s[o]))) M.append(m[o]); }
-      else { op = "assign(String)"; C->log(family, K, op, M.size(), m[o].size()); if (ok(op, X.assign(*s[o]))) M = m[o]; }
+      int o = r.chance(1, 3) ? t : (int)r.below(4);
+      if (o != t) {
+        if (app) { op = "append(String)"; C->log(family, K, op, M.size(), m[o].size()); if (ok(op, X.append(*s[o]))) M.append(m[o]); }
+        else { op = "assign(String)"; C->log(family, K, op, M.size(), m[o].size()); if (ok(op, X.assign(*s[o]))) M = m[o]; }
+      }
+      else {
+        // the argument is the string itself (textbook: s += s, s = s, s = s.substr(k, n)). The call runs in a forked copy first:
+        // a sanitizer abort there costs one child, is reported once and the operation is skipped here.
+        uint64_t w = app ? 0 : 1 + r.below(2);
+        size_t k = 0, n = M.size();
+        if (w == 2) { k = r.below(M.size() + 1); n = r.below(M.size() - k + 1); if (r.chance(1, 3)) n = M.size() - k; }
+        op = w == 0 ? "append(self)" : w == 1 ? "assign(self)" : "assign(self-substring)";
+        C->log(family, K, op, k, n);
+        bool grows = w == 0 && M.size() * 2 > X.capacity();
+        auto call = [&]() -> Error { return w == 0 ? X.append(X) : w == 1 ? X.assign(X) : X.assign(X.data() + k, n); };
+        std::string rep, why = probe_in_child([&]() { (void)call(); }, &rep);
+        g_stats.self_alias_string++; if (grows) g_stats.self_alias_string_grow++;
+        if (!why.empty()) {
+          C->viol(S("string:%s:%s", opclass(op).c_str(), why.c_str()), S("%s on a %s string of %zu bytes (capacity %zu%s) stopped with a sanitizer report: %s", op, X.is_large_or_external() ? (X.is_external() ? "external" : "large") : "small", M.size(), X.capacity(), grows ? ", has to grow" : "", rep.c_str()));
+          return;
+        }
+        if (ok(op, call())) { if (w == 0) M.append(std::string(M)); else if (w == 2) M = M.substr(k, n); }
+      }
     }
     else if (c < 96) {
       // equality queries with near misses
@@ -1459,13 +1747,31 @@ struct StrH : Harness {
     }
     else if (c < 98) {
       // impossible sizes: must be refused (overflow guards), nothing may change
-      size_t n = r.chance(1, 2) ? SIZE_MAX - r.below(40) : SIZE_MAX - Globals::kGrowThreshold - r.below(3) + 1;
-      uint64_t w = r.below(3);
-      op = w == 0 ? "append_chars(huge)" : w == 1 ? "assign_chars(huge)" : "prepare(huge)"; C->log(family, K, op, n, M.size());
+      // three classes: arithmetic would wrap (guards), half the address space, and sizes the allocator itself refuses (> 2^41 bytes:
+      // the real malloc-returns-null path; nothing is ever read from `data` before the refusal)
+      uint64_t cls = r.below(4);
+      size_t n = cls == 0 ? SIZE_MAX - 1 - r.below(40) : cls == 1 ? SIZE_MAX - Globals::kGrowThreshold - r.below(3) + 1 : cls == 2 ? (size_t(1) << 63) + r.below(4096) : (size_t(1) << (41 + r.below(21))) + r.below(4096);
+      uint64_t w = r.below(8);
+      static const char dummy[8] = { 'd', 'u', 'm', 'm', 'y', 0, 0, 0 };
+      char sep = r.chance(1, 2) ? '\0' : ':';
+      if (w == 5) {
+        uint64_t h = r.below(4);
+        if (h == 0) { n = SIZE_MAX / 2 + r.below(40) - 20; sep = '\0'; } else if (h == 1) { n = SIZE_MAX / 3 + r.below(40) - 20; sep = ':'; }
+      }
+      static const char* names[] = { "append_chars(huge)", "assign_chars(huge)", "prepare(huge)", "assign(data,huge)", "append(data,huge)", "hex(huge)", "pad_end(huge)", "assign(span,huge)" };
+      op = names[w]; C->log(family, K, op, n, M.size());
       bool accepted;
-      if (w == 0) accepted = X.append_chars('x', n) == Error::kOk; else if (w == 1) accepted = X.assign_chars('x', n) == Error::kOk; else accepted = X.prepare(mop, n) != nullptr;
+      if (w == 0) accepted = X.append_chars('x', n) == Error::kOk;
+      else if (w == 1) accepted = X.assign_chars('x', n) == Error::kOk;
+      else if (w == 2) accepted = X.prepare(mop, n) != nullptr;
+      else if (w == 3) accepted = X.assign(dummy, n) == Error::kOk;
+      else if (w == 4) accepted = X.append(dummy, n) == Error::kOk;
+      else if (w == 5) accepted = (app ? X.append_hex(dummy, n, sep) : X.assign_hex(dummy, n, sep)) == Error::kOk;
+      else if (w == 6) accepted = X.pad_end(n, '.') == Error::kOk;
+      else accepted = X.assign(Span<const char>(dummy, n)) == Error::kOk;
       if (accepted) { C->viol(S("string:%s:impossible-request-accepted", opclass(op).c_str()), S("%s with n=%zu succeeded", op, n)); C->abort = true; return; }
-      g_stats.huge_rejected++;
+      g_stats.huge_rejected++; g_stats.huge_string++;
+      if (cls >= 2 && !(w == 5 && n > SIZE_MAX / 4)) g_stats.malloc_refused++;
     }
     else {
       size_t n = piece_len() % 600; char ch = char(33 + r.below(90));
@@ -1536,7 +1842,7 @@ struct RawH : Harness {
     C->log(family, K, zeroed ? "alloc_oneshot_zeroed" : op, size, A.remaining_size());
     bool fired; void* p;
     { Fault f(C->maybe_fault()); p = zeroed ? A.alloc_oneshot_zeroed(size) : A.alloc_oneshot(size); fired = f.fired(); }
-    if (!p) { if (!fired) C->viol("arena:alloc_oneshot-null", S("alloc_oneshot(%zu) returned null without an injected failure", size)); return; }
+    if (!p) { if (!fired && !real_failure_ok()) C->viol("arena:alloc_oneshot-null", S("alloc_oneshot(%zu) returned null without an injected failure", size)); return; }
     if (fired) C->viol("arena:injected-failure-not-reported:alloc_oneshot", "alloc_oneshot returned memory although the request was refused");
     if (zeroed) for (size_t i = 0; i < size; i++) if (((uint8_t*)p)[i]) { C->viol("arena:alloc_oneshot_zeroed-not-zero", S("alloc_oneshot_zeroed(%zu) returned non-zero byte at %zu", size, i)); break; }
     track(p, size, size, false, "alloc_oneshot");
@@ -1552,6 +1858,30 @@ struct RawH : Harness {
     if (size > (1u << 22)) return false;
     oneshot(size, "alloc_oneshot(>next-block)");
     return true;
+  }
+
+  // requests no allocator can satisfy: near SIZE_MAX (the arena's own overflow guards), half the address space, and sizes above
+  // what malloc accepts (> 2^41 bytes: the real malloc-returns-null path behind the guards). Null is the only acceptable answer;
+  // the block list must stay walkable (the caller walks it after every step) and later requests must still be served.
+  void huge() {
+    Arena& A = *C->arena; Rng& r = C->r;
+    uint64_t cls = r.below(3), w = r.below(4);
+    size_t n = cls == 0 ? SIZE_MAX - r.below(64) : cls == 1 ? (size_t(1) << 63) + r.below(4096) : (size_t(1) << (41 + r.below(21))) + r.below(4096);
+    if (w < 2) n &= ~size_t(7);
+    static const char* names[] = { "alloc_oneshot(huge)", "alloc_oneshot_zeroed(huge)", "alloc_reusable(huge)", "alloc_reusable_zeroed(huge)" };
+    const char* op = names[w];
+    bool retained = A._current_block->next != nullptr;   // after a soft reset: the failing request first walks (and frees) the retained blocks
+    C->log(family, K, op, n, retained);
+    void* p; size_t got = 0;
+    { Fault f(false);
+      p = w == 0 ? A.alloc_oneshot(n) : w == 1 ? A.alloc_oneshot_zeroed(n) : w == 2 ? (r.chance(1, 2) ? A.alloc_reusable<void>(n) : A.alloc_reusable<void>(n, Out(got))) : A.alloc_reusable_zeroed<void>(n, Out(got)); }
+    if (p) { C->viol(S("arena:impossible-request-accepted:%s", op), S("%s with size %zu returned %p instead of null", op, n, p)); C->abort = true; return; }
+    g_stats.huge_arena++; g_stats.huge_rejected++;
+    if (cls) { g_stats.malloc_refused++; if (retained && w < 2) g_stats.malloc_refused_after_soft_reset++; }
+    // still serviceable
+    void* q; { Fault f(false); q = A.alloc_oneshot(16); }
+    if (!q) { if (!real_failure_ok()) C->viol("arena:unusable-after-refused-request", S("alloc_oneshot(16) returned null right after %s was refused", op)); }
+    else track(q, 16, 16, false, "alloc_oneshot");
   }
 
   void step() override {
@@ -1578,7 +1908,7 @@ struct RawH : Harness {
       C->log(family, K, nt ? "dup(nt)" : "dup", n);
       bool fired; void* p; { Fault f(C->maybe_fault()); p = A.dup(txt.data(), n, nt); fired = f.fired(); }
       if (n == 0) { if (p) C->viol("arena:dup-empty-not-null", "dup() of zero bytes returned non-null"); return; }
-      if (!p) { if (!fired) C->viol("arena:dup-null", "dup() returned null without an injected failure"); return; }
+      if (!p) { if (!fired && !real_failure_ok()) C->viol("arena:dup-null", "dup() returned null without an injected failure"); return; }
       g_stats.compares++;
       if (memcmp(p, txt.data(), n) != 0) C->viol("arena:dup-content-wrong", S("dup(%zu) copy differs from the source", n));
       if (nt && ((char*)p)[n] != '\0') C->viol("arena:dup-not-null-terminated", S("dup(%zu, null_terminate) is not terminated", n));
@@ -1590,7 +1920,7 @@ struct RawH : Harness {
       C->log(family, K, "sformat", n);
       char want[400]; snprintf(want, sizeof want, "%d:%s", iv, txt.c_str());
       bool fired; char* p; { Fault f(C->maybe_fault()); p = A.sformat("%d:%s", iv, txt.c_str()); fired = f.fired(); }
-      if (!p) { if (!fired) C->viol("arena:sformat-null", "sformat() returned null without an injected failure"); return; }
+      if (!p) { if (!fired && !real_failure_ok()) C->viol("arena:sformat-null", "sformat() returned null without an injected failure"); return; }
       g_stats.compares++;
       if (strcmp(p, want) != 0) C->viol("arena:sformat-content-wrong", "sformat() result differs from snprintf");
       track(p, strlen(want) + 1, Support::align_up<size_t>(strlen(want) + 1, 8), false, "sformat");
@@ -1604,7 +1934,7 @@ struct RawH : Harness {
         if (want_got) p = zeroed ? A.alloc_reusable_zeroed<void>(size, Out(got)) : A.alloc_reusable<void>(size, Out(got));
         else p = zeroed ? A.alloc_reusable_zeroed<void>(size) : A.alloc_reusable<void>(size);
         fired = f.fired(); }
-      if (!p) { if (!fired) C->viol("arena:alloc_reusable-null", S("alloc_reusable(%zu) returned null without an injected failure", size)); return; }
+      if (!p) { if (!fired && !real_failure_ok()) C->viol("arena:alloc_reusable-null", S("alloc_reusable(%zu) returned null without an injected failure", size)); return; }
       if (fired) C->viol("arena:injected-failure-not-reported:alloc_reusable", "alloc_reusable returned memory although the request was refused");
       if (got < size) { C->viol("arena:allocated_size-below-request", S("alloc_reusable(%zu) reported allocated_size=%zu", size, got)); got = size; }
       if (zeroed) for (size_t i = 0; i < got; i++) if (((uint8_t*)p)[i]) { C->viol("arena:alloc_reusable_zeroed-not-zero", S("alloc_reusable_zeroed(%zu) (allocated %zu) has a non-zero byte at %zu", size, got, i)); break; }
@@ -1620,9 +1950,26 @@ struct RawH : Harness {
       C->log(family, K, by_got ? "free_reusable(allocated_size)" : "free_reusable(size)", blocks[i].req, blocks[i].got);
       release(i, by_got);
     }
+    else if (c < 97) huge();
+    else if (c < 98) {
+      // manual bump allocation through ptr()/end()/set_ptr() (the documented way to take exclusive memory from the current block)
+      uint8_t* p = A.ptr(); uint8_t* e = A.end<uint8_t>();
+      C->log(family, K, "ptr/set_ptr", size_t(e - p));
+      g_stats.small_api_checks++;
+      if (size_t(e - p) != A.remaining_size() || p != A._ptr || e != A._end) C->viol("arena:ptr-end-wrong", "ptr()/end() disagree with remaining_size()");
+      if (size_t(e - p) < 16) return;
+      size_t n = 8 * (1 + r.below(std::min<size_t>(size_t(e - p) / 8, 40)));
+      A.set_ptr(p + n);
+      if (A.ptr() != p + n) C->viol("arena:set_ptr-wrong", "set_ptr() did not move the cursor");
+      track(p, n, n, false, "set_ptr");
+    }
     else {
       C->log(family, K, "statistics");
       ArenaStatistics st = A.statistics();
+      { ArenaStatistics sum = st; sum.aggregate(st); ArenaStatistics s2 = st; s2 += st; s2 += st;
+        g_stats.small_api_checks++;
+        if (sum.block_count() != 2 * st.block_count() || sum.used_size() != 2 * st.used_size() || sum.reserved_size() != 2 * st.reserved_size() || sum.overhead_size() != 2 * st.overhead_size() || sum.pooled_size() != 2 * st.pooled_size() || s2.reserved_size() != 3 * st.reserved_size() || s2.used_size() != 3 * st.used_size())
+          C->viol("arena:statistics-aggregate-wrong", "ArenaStatistics::aggregate()/operator+= do not add the fields"); }
       size_t n = 0, reserved = 0;
       for (Arena::ManagedBlock* b = A._first_block; b; b = b->next) { n++; reserved += b->size; }
       g_stats.compares++;
@@ -1681,15 +2028,16 @@ static Harness* make_harness(int id) {
     case 5: return new TreeH();
     case 6: return new ListH();
     case 7: return new BitSetH();
-    case 8: return new BitVecH();
+    case 8: return new BitVecHT<BitWord>();
     case 9: switch (C->r.below(4)) { case 0: return new PoolHT<PObj12>(); case 1: return new PoolHT<PObj20>(); case 2: return new PoolHT<PObj12, 20>(); default: return new PoolHT<PObj>(); }
     case 10: return new AStrH();
     case 11: return new StrH();
+    case 13: return new BitVecHT<uint32_t>();
     default: return new RawH();
   }
 }
-static const int kHarnessCount = 13;
-static const char* kHarnessNames[] = { "vec32", "vec64", "vec8", "vec12", "hash", "tree", "list", "bitset", "bitvec", "pool", "astring", "string", "raw" };
+static const int kHarnessCount = 14;
+static const char* kHarnessNames[] = { "vec32", "vec64", "vec8", "vec12", "hash", "tree", "list", "bitset", "bitvec", "pool", "astring", "string", "raw", "bitvec32" };
 
 static void run_script(uint64_t idx, uint64_t seed, size_t max_ops, bool fault, bool walks, bool verbose) {
   Ctx ctx;
@@ -1758,7 +2106,7 @@ static void run_script(uint64_t idx, uint64_t seed, size_t max_ops, bool fault, 
     Harness* h = hs[r.below(hs.size())].get();
     if (after_soft && r.chance(1, 2)) {
       // the interesting spot after a soft reset: requests relative to the retained blocks
-      for (auto& hh : hs) if (hh->family == F_RAW) { static_cast<RawH*>(hh.get())->probe_next_block(); break; }
+      for (auto& hh : hs) if (hh->family == F_RAW) { RawH* rh = static_cast<RawH*>(hh.get()); if (r.chance(1, 4)) rh->huge(); else rh->probe_next_block(); break; }
       after_soft = r.chance(1, 2);
     }
     else h->step();
@@ -1785,6 +2133,223 @@ static void run_script(uint64_t idx, uint64_t seed, size_t max_ops, bool fault, 
   std::vector<void*> dyn = ctx.walks_enabled ? dynamic_blocks_of(*ctx.arena) : std::vector<void*>();
   box.destroy();           // ... then ~Arena(): implicit hard reset; ASan watches the block walk
   expect_freed(dyn, "~Arena", nullptr);
+  C = nullptr;
+}
+
+
+// ---------------------------------------------------------------------------------------------------------
+// Directed scripts (run by the shards that get --directed 1): the parts of the growth policies and of the hash prime table
+// that no random script reaches because they need containers above Globals::kGrowThreshold (16 MiB) / tables of 10^6 buckets.
+// They are ordinary scripts for the bookkeeping: index scripts+k, "@script" line, violations through C->viol.
+// ---------------------------------------------------------------------------------------------------------
+static constexpr size_t kTH = Globals::kGrowThreshold;
+
+template<typename T>
+static void big_vector(Rng& r) {
+  const char* K = VT<T>::name();
+  Arena a(65536);
+  ArenaVector<T> v; std::vector<T> m;
+  auto verify = [&](const char* op) {
+    g_stats.compares++;
+    if (v.capacity() < v.size()) { C->viol(S("vector:capacity-below-size:big:%s", op), S("%s above kGrowThreshold: capacity %zu < size %zu after %s", K, v.capacity(), v.size(), op)); C->abort = true; return; }
+    if (v.size() != m.size()) { C->viol(S("vector:size-mismatch:big:%s", op), S("%s above kGrowThreshold: size()=%zu, model %zu after %s", K, v.size(), m.size(), op)); C->abort = true; return; }
+    if (m.size() && memcmp(v.data(), m.data(), m.size() * sizeof(T)) != 0) { size_t i = 0; while (v.data()[i] == m[i]) i++; C->viol(S("vector:content-mismatch:big:%s", op), S("%s above kGrowThreshold: element %zu of %zu differs from the model after %s", K, i, m.size(), op)); C->abort = true; return; }
+    g_stats.big_bytes_verified += m.size() * sizeof(T);
+  };
+  auto grown = [&](size_t cap0) { if (v.capacity() != cap0 && cap0 * sizeof(T) >= kTH) g_stats.big_vec_growths++; };
+  size_t n0 = kTH / sizeof(T) + 1 + r.below(3);
+  C->log(F_VECTOR, K, "big:reserve_fit", n0);
+  if (v.reserve_fit(a, n0) != Error::kOk || v.capacity() < n0) { C->viol("vector:unexpected-error:big:reserve_fit", S("%s reserve_fit(%zu) failed or left capacity %zu", K, n0, v.capacity())); return; }
+  C->log(F_VECTOR, K, "big:resize_fit", n0);
+  if (v.resize_fit(a, n0) != Error::kOk) { C->viol("vector:unexpected-error:big:resize_fit", S("%s resize_fit(%zu) failed", K, n0)); return; }
+  { T z; memset(&z, 0, sizeof z); m.assign(n0, z); }
+  verify("resize_fit"); if (C->abort) return;
+  for (size_t i = 0; i < n0; i++) { T x = VT<T>::make(i * 0x9E3779B1u + 7); v.data()[i] = x; m[i] = x; }
+  // size == capacity (or close): the next appends have to grow a buffer that is already above the threshold
+  while (v.size() < v.capacity() && !C->abort) { T x = VT<T>::make(r.next()); v.append_unchecked(x); m.push_back(x); }
+  for (int round = 0; round < 3 && !C->abort; round++) {
+    size_t cap0 = v.capacity(); uint64_t w = round == 0 ? 0 : r.below(4);
+    if (v.capacity() * sizeof(T) > (36u << 20)) break;
+    if (w == 0) {
+      C->log(F_VECTOR, K, "big:append", m.size(), cap0);
+      T x = VT<T>::make(r.next()); Error e = v.append(a, x);
+      if (e != Error::kOk) { C->viol("vector:unexpected-error:big:append", S("%s append at size %zu failed with %u", K, m.size(), (unsigned)e)); return; }
+      m.push_back(x); grown(cap0); verify("append");
+    }
+    else if (w == 1) {
+      size_t n = cap0 + 1 + r.below(kTH / sizeof(T) / 2);
+      C->log(F_VECTOR, K, "big:reserve_grow", n, cap0);
+      Error e = v.reserve_grow(a, n);
+      if (e != Error::kOk || v.capacity() < n) { C->viol("vector:reserve-ok-without-capacity:big:reserve_grow", S("%s reserve_grow(%zu) returned %u with capacity %zu", K, n, (unsigned)e, v.capacity())); return; }
+      grown(cap0); verify("reserve_grow");
+    }
+    else if (w == 2) {
+      size_t n = cap0 + 1 + r.below(1000);
+      C->log(F_VECTOR, K, "big:resize_grow", n, cap0);
+      Error e = v.resize_grow(a, n);
+      if (e != Error::kOk) { C->viol("vector:unexpected-error:big:resize_grow", S("%s resize_grow(%zu) failed with %u", K, n, (unsigned)e)); return; }
+      { T z; memset(&z, 0, sizeof z); m.resize(n, z); } grown(cap0); verify("resize_grow");
+    }
+    else {
+      size_t n = 1 + r.below(5000);
+      C->log(F_VECTOR, K, "big:reserve_additional", n, cap0);
+      while (v.size() < v.capacity()) { T x = VT<T>::make(r.next()); v.append_unchecked(x); m.push_back(x); }
+      Error e = v.reserve_additional(a, n);
+      if (e != Error::kOk || v.capacity() - v.size() < n) { C->viol("vector:reserve-ok-without-capacity:big:reserve_additional", S("%s reserve_additional(%zu) returned %u with capacity %zu, size %zu", K, n, (unsigned)e, v.capacity(), v.size())); return; }
+      grown(cap0); verify("reserve_additional");
+    }
+  }
+  v.release(a);
+}
+
+static void big_string(Rng& r) {
+  String s0; StringTmp<130> t1;
+  String& X = r.chance(1, 2) ? s0 : static_cast<String&>(t1);
+  std::string m;
+  auto verify = [&](const char* op) {
+    g_stats.compares++;
+    if (X.capacity() < X.size()) { C->viol(S("string:big:capacity-below-size"), S("above kGrowThreshold: capacity %zu < size %zu after %s", X.capacity(), X.size(), op)); C->abort = true; return; }
+    if (X.size() != m.size()) { C->viol("string:big:size-mismatch", S("above kGrowThreshold: size()=%zu, model %zu after %s", X.size(), m.size(), op)); C->abort = true; return; }
+    if (memcmp(X.data(), m.data(), m.size()) != 0) { size_t i = 0; while (X.data()[i] == m[i]) i++; C->viol("string:big:content-mismatch", S("above kGrowThreshold: byte %zu of %zu differs from the model after %s", i, m.size(), op)); C->abort = true; return; }
+    if (X.data()[X.size()] != '\0') { C->viol("string:big:not-null-terminated", S("above kGrowThreshold: data()[size()] != 0 at size %zu after %s", X.size(), op)); C->abort = true; return; }
+    g_stats.big_bytes_verified += m.size();
+  };
+  auto grown = [&](size_t cap0, size_t size0) { if (X.capacity() != cap0 && (size0 >= kTH || X.size() + 1 > kTH)) g_stats.big_string_growths++; };
+  size_t piece = (9u << 20) + r.below(1u << 20);
+  for (int i = 0; i < 2 && !C->abort; i++) {
+    size_t cap0 = X.capacity(), size0 = X.size(); char ch = char('a' + i);
+    C->log(F_STRING, "string", "big:append_chars", piece, size0);
+    if (X.append_chars(ch, piece) != Error::kOk) { C->viol("string:big:unexpected-error", S("append_chars(%zu) at size %zu failed", piece, size0)); return; }
+    m.append(piece, ch); grown(cap0, size0); verify("append_chars");
+  }
+  for (int round = 0; round < 3 && !C->abort; round++) {
+    size_t cap0 = X.capacity(), size0 = X.size(); uint64_t w = r.below(4);
+    if (m.size() > 44u << 20) break;
+    if (w == 0) {
+      // fill to the brim, then one more character
+      C->log(F_STRING, "string", "big:fill+append(char)", cap0, size0);
+      if (X.append_chars('f', cap0 - size0) != Error::kOk) { C->viol("string:big:unexpected-error", "append_chars up to the capacity failed"); return; }
+      m.append(cap0 - size0, 'f');
+      verify("fill"); if (C->abort) return;
+      if (X.append('!') != Error::kOk) { C->viol("string:big:unexpected-error", "append(char) at size == capacity failed"); return; }
+      m.push_back('!'); grown(cap0, cap0); verify("append(char)");
+    }
+    else if (w == 1) {
+      std::string txt = rand_text(r, (1u << 20) + r.below(1u << 20), true);
+      C->log(F_STRING, "string", "big:append(data,size)", txt.size(), size0);
+      if (X.append(txt.data(), txt.size()) != Error::kOk) { C->viol("string:big:unexpected-error", "append(data,size) failed"); return; }
+      m.append(txt); grown(cap0, size0); verify("append(data,size)");
+    }
+    else if (w == 2) {
+      size_t n = X.capacity() + 1 + r.below(1u << 20); std::string txt(n, 'A'); for (size_t i = 0; i < n; i += 4093) txt[i] = char('0' + i % 10);
+      C->log(F_STRING, "string", "big:assign(data,size)", n, size0);
+      if (X.assign(txt.data(), n) != Error::kOk) { C->viol("string:big:unexpected-error", "assign(data,size) above the capacity failed"); return; }
+      m = txt; grown(cap0, size0); verify("assign(data,size)");
+    }
+    else {
+      size_t n = X.capacity() + 1 + r.below(1u << 20);
+      C->log(F_STRING, "string", "big:assign_chars", n, size0);
+      if (X.assign_chars('z', n) != Error::kOk) { C->viol("string:big:unexpected-error", "assign_chars above the capacity failed"); return; }
+      m.assign(n, 'z'); grown(cap0, size0); verify("assign_chars");
+    }
+  }
+}
+
+static void big_bitset(Rng& r) {
+  constexpr size_t kBits = size_t(Globals::kGrowThreshold) * 8u;    // the threshold of ArenaBitSet::_append
+  Arena a(65536);
+  ArenaBitSet b; bool v = r.chance(1, 2);
+  std::map<size_t, bool> flips;      // sparse model: every bit is `fill(i)` unless listed
+  std::vector<std::pair<size_t, bool>> segs;   // (end, value) runs in order
+  auto verify = [&](const char* op, size_t size) {
+    g_stats.compares++;
+    if (b.size() != size || b.capacity() < b.size()) { C->viol(S("bitset:size-mismatch:big:%s", op), S("above the growth threshold: size()=%zu capacity()=%zu, model %zu after %s", b.size(), b.capacity(), size, op)); C->abort = true; return; }
+    // whole words against the run model, flipped bits individually, the tail beyond size() must be clear
+    size_t words = (size + 63) / 64, pos = 0, bad = SIZE_MAX;
+    std::vector<BitWord> want(words, 0);
+    for (auto& s : segs) { size_t e = std::min(s.first, size); if (s.second && e > pos) Support::bit_vector_fill(want.data(), pos, e - pos); pos = std::max(pos, e); }
+    for (auto& f : flips) if (f.first < size) Support::bit_vector_set_bit(want.data(), f.first, f.second);
+    for (size_t i = 0; i < words; i++) if (b.data()[i] != want[i]) { bad = i; break; }
+    if (bad != SIZE_MAX) { C->viol(S("bitset:bit-mismatch:big:%s", op), S("above the growth threshold: word %zu of %zu differs from the model after %s (size %zu bits)", bad, words, op, size)); C->abort = true; return; }
+    g_stats.big_bytes_verified += words * 8;
+  };
+  size_t n0 = kBits + 1 + r.below(200);
+  C->log(F_BITSET, "bitset", "big:resize", n0, v);
+  if (b.resize(a, n0, v) != Error::kOk) { C->viol("bitset:unexpected-error:big:resize", S("resize(%zu) failed", n0)); return; }
+  segs.push_back({ n0, v });
+  for (int i = 0; i < 64; i++) { size_t k = r.chance(1, 4) ? n0 - 1 - r.below(130) : r.below(n0); bool x = r.chance(1, 2); b.set_bit(k, x); flips[k] = x; }
+  verify("resize", n0); if (C->abort) return;
+  // up to the capacity with the other value, then appends: _append has to grow a set that is above the threshold
+  size_t cap = b.capacity(), size = n0;
+  if (cap > size) { C->log(F_BITSET, "bitset", "big:resize(capacity)", cap, !v); if (b.resize(a, cap, !v) != Error::kOk) { C->viol("bitset:unexpected-error:big:resize", "resize up to the capacity failed"); return; } segs.push_back({ cap, !v }); size = cap; verify("resize(capacity)", size); if (C->abort) return; }
+  size_t n_app = 1 + r.below(200);
+  C->log(F_BITSET, "bitset", "big:append", n_app, size);
+  for (size_t i = 0; i < n_app; i++) {
+    bool x = r.chance(1, 2); size_t cap0 = b.capacity();
+    if (b.append(a, x) != Error::kOk) { C->viol("bitset:unexpected-error:big:append", S("append at size %zu failed", size)); return; }
+    if (b.capacity() != cap0 && cap0 >= kBits) g_stats.big_bitset_growths++;
+    flips[size] = x; size++;
+  }
+  segs.push_back({ size, false });
+  verify("append", size); if (C->abort) return;
+  // a copy into a fresh set (copy_from allocates the exact size)
+  ArenaBitSet c2;
+  C->log(F_BITSET, "bitset", "big:copy_from", size);
+  if (c2.copy_from(a, b) != Error::kOk || !c2.equals(b) || c2.size() != size) C->viol("bitset:bit-mismatch:big:copy_from", "copy_from of a set above the threshold failed or the copy is not equal");
+  c2.release(a); b.release(a);
+}
+
+static void hash_primes(Rng& r, uint32_t max_index) {
+  Arena a(65536);
+  ArenaHash<HNode> T;
+  std::vector<HNode*> nodes;
+  auto add = [&](uint32_t h) { HNode* n = a.new_oneshot<HNode>(h, uint32_t(nodes.size()), nodes.size()); if (n) { T.insert(a, n); nodes.push_back(n); } };
+  for (uint32_t h : { 0u, 1u, 2u, 0x7FFFFFFFu, 0x80000000u, 0x80000001u, 0xFFFFFFFEu, 0xFFFFFFFFu }) add(h);
+  for (int i = 0; i < 24; i++) add(uint32_t(r.next()) | (i & 1 ? 0xFF000000u : 0u));
+  uint32_t prev_count = 0;
+  for (uint32_t idx = 0; idx <= max_index && !C->abort; idx++) {
+    C->log(F_HASH, "hash", "primes:rehash", idx);
+    T._rehash(a, idx);
+    if (T._prime_index != idx) { C->viol("hash:rehash-refused-without-fault", S("_rehash(%u) did not take effect although no failure was injected", idx)); return; }
+    uint32_t count = T._buckets_count;
+    if (count <= prev_count && idx) C->viol("hash:prime-table-not-ascending", S("prime index %u has %u buckets, index %u had %u", idx, count, idx - 1, prev_count));
+    prev_count = count;
+    // hash codes at the edges of every bucket-count multiple the 32-bit range allows, plus random ones
+    uint32_t kmax = uint32_t(0xFFFFFFFFull / count);
+    auto probe = [&](uint32_t h) {
+      g_stats.calc_mod_checks++;
+      uint32_t got = T._calc_mod(h);
+      if (got >= count) { C->viol("hash:bucket-index-out-of-range", S("prime index %u (%u buckets): hash %08x maps to bucket %u (hash %% buckets = %u)", idx, count, h, got, h % count)); C->abort = true; }
+    };
+    for (uint32_t h : { 0u, 1u, count - 1, count, count + 1, 0x7FFFFFFFu, 0x80000000u, 0xFFFFFFFFu, 0xFFFFFFFEu, kmax * count, kmax * count - 1, uint32_t(uint64_t(kmax) * count + count - 1) }) probe(h);
+    for (int i = 0; i < 400 && !C->abort; i++) { uint32_t k = uint32_t(r.below(uint64_t(kmax) + 1)); uint32_t base = k * count; probe(base); probe(base - 1); probe(base + 1); probe(base + count - 1); }
+    for (int i = 0; i < 64 && !C->abort; i++) probe(0xFFFFFFFFu - uint32_t(i));
+    for (int i = 0; i < 300 && !C->abort; i++) probe(uint32_t(r.next()));
+    if (C->abort) break;
+    // the nodes that went through the rehash are where lookups go
+    for (HNode* n : nodes) {
+      HNode* g = T.get(HKey{ n->_hash_code, n->key });
+      if (g != n) { C->viol("hash:get-misses-present-key:primes", S("prime index %u (%u buckets): node with hash %08x is not found after _rehash", idx, count, n->_hash_code)); C->abort = true; break; }
+    }
+    g_stats.prime_indices++;
+  }
+  T.release(a);
+}
+
+static void run_directed(uint64_t idx, uint64_t seed, int part, uint32_t prime_max, bool verbose) {
+  Ctx ctx; C = &ctx;
+  ctx.script_idx = idx; ctx.script_seed = seed; ctx.r = Rng(seed ^ 0xD1EC7EDull);
+  ctx.walks_enabled = false; ctx.fault_enabled = false;
+  static const char* parts[] = { "big-vector", "big-string", "big-bitset", "hash-primes" };
+  ctx.cfg = S("{\"directed\":\"%s\"}", parts[part]);
+  if (verbose) fprintf(stderr, "script %llu seed %llu %s\n", (unsigned long long)idx, (unsigned long long)seed, ctx.cfg.c_str());
+  Rng& r = ctx.r;
+  if (part == 0) { switch (r.below(4)) { case 0: big_vector<uint8_t>(r); break; case 1: big_vector<uint32_t>(r); break; case 2: big_vector<uint64_t>(r); break; default: big_vector<S12>(r); } }
+  else if (part == 1) big_string(r);
+  else if (part == 2) big_bitset(r);
+  else hash_primes(r, prime_max);
+  g_stats.scripts++;
+  g_stats.distinct_all.insert(ctx.hash);
   C = nullptr;
 }
 
@@ -1854,12 +2419,23 @@ int main(int argc, char** argv) {
   uint64_t from = a.u64("from", 0);
   bool fault = a.u64("fault", 1) != 0, walks = !a.has("no-walks"), verbose = a.has("verbose");
   uint64_t only = a.has("only") ? a.u64("only", 0) : UINT64_MAX;
+  g_real_oom = a.u64("real-oom", 0) != 0;
 
   for (uint64_t i = from; i < scripts; i++) {
     if (only != UINT64_MAX && i != only) continue;
     fprintf(stderr, "@script %llu\n", (unsigned long long)i);
     Rng r(seed * 1000003ull + i);
     run_script(i, r.next(), (size_t)max_ops, fault, walks, verbose);
+  }
+  if (a.u64("directed", 0)) {
+    uint32_t prime_max = (uint32_t)a.u64("prime-max", 40);
+    for (uint64_t k = 0; k < 4; k++) {
+      uint64_t i = scripts + k;
+      if (i < from || (only != UINT64_MAX && i != only)) continue;
+      fprintf(stderr, "@script %llu\n", (unsigned long long)i);
+      Rng r(seed * 1000003ull + i);
+      run_directed(i, r.next(), (int)k, prime_max, verbose);
+    }
   }
 
   printf("{\"violations\":[");
@@ -1874,6 +2450,21 @@ int main(int argc, char** argv) {
          (unsigned long long)g_stats.skip_events, (unsigned long long)g_stats.stamp_bytes, (unsigned long long)g_stats.max_blocks, (unsigned long long)g_stats.max_live_blocks,
          (unsigned long long)g_stats.huge_rejected, (unsigned long long)g_stats.sso_to_heap, (unsigned long long)g_stats.fmt_exact_fit);
   for (int i = 0; i < F_COUNT; i++) printf("%s\"%s\":%llu", i ? "," : "", kFamilyNames[i], (unsigned long long)g_stats.ops[i]);
+  printf("},\"extra\":{");
+  {
+    struct { const char* name; uint64_t v; } ex[] = {
+      { "self_alias_string", g_stats.self_alias_string }, { "self_alias_string_grow", g_stats.self_alias_string_grow }, { "self_alias_vector", g_stats.self_alias_vector },
+      { "self_alias_bitset", g_stats.self_alias_bitset }, { "self_swaps", g_stats.self_swaps }, { "child_probes", g_stats.child_probes }, { "child_probe_deaths", g_stats.child_probe_deaths },
+      { "moves_hash", g_stats.moves_hash }, { "moves_hash_embedded", g_stats.moves_hash_embedded }, { "moves_tree", g_stats.moves_tree }, { "moves_list", g_stats.moves_list },
+      { "huge_arena", g_stats.huge_arena }, { "huge_bitset", g_stats.huge_bitset }, { "huge_string", g_stats.huge_string }, { "malloc_refused", g_stats.malloc_refused },
+      { "malloc_refused_after_soft_reset", g_stats.malloc_refused_after_soft_reset },
+      { "big_vec_growths", g_stats.big_vec_growths }, { "big_string_growths", g_stats.big_string_growths }, { "big_bitset_growths", g_stats.big_bitset_growths }, { "big_bytes_verified", g_stats.big_bytes_verified },
+      { "bitops_calls", g_stats.bitops_calls }, { "bitvec32_ops", g_stats.bitvec32_ops }, { "bitword_iter", g_stats.bitword_iter },
+      { "real_oom_failures", g_real_oom_failures }, { "real_oom_scripts", g_real_oom ? g_stats.scripts : 0 },
+      { "prime_indices", g_stats.prime_indices }, { "calc_mod_checks", g_stats.calc_mod_checks }, { "natural_rehashes", g_stats.natural_rehashes }, { "small_api_checks", g_stats.small_api_checks },
+    };
+    for (size_t i = 0; i < sizeof ex / sizeof ex[0]; i++) printf("%s\"%s\":%llu", i ? "," : "", ex[i].name, (unsigned long long)ex[i].v);
+  }
   printf("},\"ops_by_name\":{");
   { std::map<std::string, uint64_t> byname; for (auto& kv : g_stats.opcount) byname[std::string(kv.first.first) + "." + kv.first.second] += kv.second;
     bool f = true; for (auto& kv : byname) { printf("%s%s:%llu", f ? "" : ",", jstr(kv.first).c_str(), (unsigned long long)kv.second); f = false; } }
